@@ -89,7 +89,7 @@ CLAIMED["C09"] = dict(
 
 CLAIMED["C13"] = dict(
     technique="static analysis: def-use provenance of map keys and transport routes from one ChannelId, guard dominance of the record-count check, close-at-last pairing with await settlement, WAKE-1 may-analysis over gateway/transport poll functions, variant-set dataflow over Result-item stream adapters, finite evaluation of the extracted capacity/read-size arithmetic over a parameter grid",
-    text="Decides keying and bounds: a sender is stored under the full (peer, gate) channel id and the transport route is built from the two halves of the same id; receivers build their route from the id they are keyed by, on the matching transport and map; sending at or beyond the declared count is refused before anything is written and the channel is closed at i+1 exactly after the last record; poll functions never return Pending without a registered waker; receive-path stream adapters pass errors on; the capacity / read-size formula of SendChannelConfig::new_with is evaluated over a grid of (active = 2^k, record size, configured read size) and yields a read size that is a multiple of the record size and a divisor of the capacity in both arms, with the two runtime assertions present; for the no-deadlock clause the send / receive buffers' waker discipline is decided as in C14 (no Pending without a registered waker, every state change that can unblock the other side reaches its wake on all paths, the latest waker is kept). Delivery, ordering within the window and deadlock freedom over all schedules are not decided.",
+    text="Decides keying and bounds: a sender is stored under the full (peer, gate) channel id and the transport route is built from the two halves of the same id; receivers build their route from the id they are keyed by, on the matching transport and map; sending at or beyond the declared count is refused before anything is written and the channel is closed at i+1 exactly after the last record; poll functions never return Pending without a registered waker; the rendezvous of an arriving request stream with the receiver that waits for it (StreamCollection) stores the stream or the waker in every arm, wakes the parked receiver when its stream arrives, hands a stream out once and refuses a second stream or a second reader for the same key with a panic; receive-path stream adapters pass errors on; the capacity / read-size formula of SendChannelConfig::new_with is evaluated over a grid of (active = 2^k, record size, configured read size) and yields a read size that is a multiple of the record size and a divisor of the capacity in both arms, with the two runtime assertions present; for the no-deadlock clause the send / receive buffers' waker discipline is decided as in C14 (no Pending without a registered waker, every state change that can unblock the other side reaches its wake on all paths, the latest waker is kept). Delivery, ordering within the window and deadlock freedom over all schedules are not decided.",
     ref="§3 C13")
 
 CLAIMED["C17"] = dict(
